@@ -1154,10 +1154,17 @@ class Interp:
             # `for o in <symbolic list of objects>: o.m(args)` == one broadcast event over the whole list
             b = st.body
             ok = isinstance(st.target, ast.Name) and not st.orelse and len(b) >= 1
+            def receiver(s_):
+                """the loop variable, possibly through typing.cast(T, var)"""
+                v = s_.value.func.value
+                if (isinstance(v, ast.Call) and isinstance(v.func, ast.Name) and v.func.id == "cast" and len(v.args) == 2
+                        and isinstance(v.args[1], ast.Name)):
+                    v = v.args[1]
+                return v
             for s_ in b:
                 ok = ok and (isinstance(s_, ast.Expr) and isinstance(s_.value, ast.Call)
-                             and isinstance(s_.value.func, ast.Attribute) and isinstance(s_.value.func.value, ast.Name)
-                             and s_.value.func.value.id == st.target.id and not s_.value.keywords
+                             and isinstance(s_.value.func, ast.Attribute) and isinstance(receiver(s_), ast.Name)
+                             and receiver(s_).id == st.target.id and not s_.value.keywords
                              and st.target.id not in {n.id for a in s_.value.args for n in ast.walk(a) if isinstance(n, ast.Name)})
             if ok:
                 calls = [(s_.value.func.attr, self.eval_elts(s_.value.args, env)) for s_ in b]
